@@ -8,20 +8,27 @@ import json
 import os
 import struct
 import typing
-from collections import abc
+from collections import Counter, abc
 
-from harness.common import LEAN, Ctx, Driver, compare_with_model, hx, load_corpus
+from harness.common import LEAN, Ctx, Driver, compare_with_model, hx, load_corpus, shrink_list
 
 import aiohomekit.tlv8 as T
 
 ID = "C16"
 RULE = ("every TLVStruct subclass found by reflection (schemas regenerated each run) x random field values of every supported type with boundary sizes 1,254,255,256,510,511, "
         "unset fields, nested structs, sequences of 1..3 structs, id lists of 0..6 entries over all byte values; stream 'enc' = library encode of library objects, "
-        "stream 'peer' = messages written by an independent reference TLV8 writer (conformant accessory), stream 'mut' = mutated encodings (correspondence only). "
-        "non-trivial = distinct (class, set-field mask, size classes)")
-TRUSTED = ["Python dataclasses/typing reflection (schema extraction)", "struct.pack native == little-endian on this platform"]
+        "stream 'peer' = messages written by an independent reference TLV8 writer (conformant accessory), stream 'mut' = mutated encodings (correspondence only); "
+        "stream 'model' = every characteristic type whose metadata names a struct (bare or array, found by reflection) x reference-encoded values (lists of 0..4 items, items ending in 00, "
+        "zero numbers/enums in every position, exhaustive lists of 0..3 for small enum-only structs, empty items, nested lists, > 255 bytes) stored as base64 in histories of 1..4 stores via "
+        "add_char(value=) / set_value / value setter / process_changes / Accessories.from_list / serialize+from_list and read back through every accessor (Characteristic.value, get_value, "
+        "Service.value, Service[...], Characteristics.first, Services.first/filter by value, iteration), read purity, and the write path Service.build_update; "
+        "stream 'ip' = the same histories end to end through the unpatched IpPairing on the simulated network (GET /accessories, EVENT, get_characteristics, build_update+put_characteristics of library-encoded messages). "
+        "non-trivial = distinct (class, set-field mask, size classes) / (characteristic, store path, item count, 00 tail, 00 00 inside, size class)")
+TRUSTED = ["Python dataclasses/typing reflection (schema extraction)", "struct.pack native == little-endian on this platform",
+           "harness/simnet.py virtual-time loop and in-memory transport, harness/acc.py scaffold accessory (stream 'ip')", "base64 of the standard library"]
 ASSUMPTIONS = ["float fields (min_rtcp_interval) have no (de)serialiser in the library and are never set; they are left out of the schemas",
-               "values with an empty encoding (empty bytes/str, empty sequence, struct with no field set) are outside the round-trip theorem: the encoder emits nothing for them (WFV hypothesis)"]
+               "values with an empty encoding (empty bytes/str, empty sequence, struct with no field set) are outside the round-trip theorem: the encoder emits nothing for them (WFV hypothesis)",
+               "streams 'model'/'ip': a characteristic value is held as the base64 text of the message, as the IP transport and the entity map deliver it (the BLE/CoAP value converters hand tlv8 values on as hex text, which the model accessor does not read: noted in the evidence, not asserted)"]
 EXPLANATION = "schema-generic Lean model of tlv8.py; theorems over all schemas satisfying WFS; Gen.Schemas (reflection) transfers them to every class; differential tie per class"
 
 SIZES = {T.u8: 1, T.u16: 2, T.u32: 4, T.u64: 8, T.u128: 16}
@@ -291,6 +298,684 @@ def impl_encode(inst):
         return "exc " + type(e).__name__
 
 
+# ---------- streams 'model' / 'ip': structured values read and written through the accessory model
+def struct_chars():
+    """every characteristic type whose metadata names a TLVStruct (bare struct or array of structs), found by reflection"""
+    from aiohomekit.model.characteristics.data import characteristics as table
+    out = []
+    for uuid in sorted(table):
+        meta = table[uuid]
+        st = meta.get("struct")
+        if isinstance(st, type) and issubclass(st, T.TLVStruct):
+            out.append((uuid, str(meta.get("name", uuid)), st, bool(meta.get("array"))))
+    return out
+
+
+def zero_member(tp):
+    return next((m for m in tp if int(m) == 0), None)
+
+
+def zero_tail(inst):
+    """in place: make the canonical encoding of inst end in a 00 byte where the type of its last set field allows"""
+    fl = [(f, tp) for f, tp in fields_of(type(inst)) if getattr(inst, f.name) is not None]
+    if not fl:
+        return
+    f, tp = fl[-1]
+    v = getattr(inst, f.name)
+    if typing.get_origin(tp) is abc.Sequence:
+        if tp.__args__[0] is T.u16:
+            if v:
+                v[-1] = T.u16(int(v[-1]) & 0xFF)
+        elif v:
+            zero_tail(v[-1])
+    elif isinstance(v, T.TLVStruct):
+        zero_tail(v)
+    elif tp in SIZES:
+        setattr(inst, f.name, tp(int(v) % (256 ** (SIZES[tp] - 1))))
+    elif tp is T.bu16:
+        setattr(inst, f.name, T.bu16(int(v) & 0xFF00))
+    elif isinstance(tp, type) and issubclass(tp, enum.IntEnum):
+        z = zero_member(tp)
+        if z is not None:
+            setattr(inst, f.name, z)
+    elif isinstance(v, str):
+        setattr(inst, f.name, v + "\x00")
+    elif isinstance(v, (bytes, bytearray)):
+        setattr(inst, f.name, bytes(v) + b"\x00")
+
+
+def zero_fields(inst, rng, p):
+    """in place: numbers / enums become 0 with probability p, at every depth (runs of 00 bytes inside and at the end of values)"""
+    for f, tp in fields_of(type(inst)):
+        v = getattr(inst, f.name)
+        if v is None:
+            continue
+        if typing.get_origin(tp) is abc.Sequence:
+            if tp.__args__[0] is not T.u16:
+                for x in v:
+                    zero_fields(x, rng, p)
+        elif isinstance(v, T.TLVStruct):
+            zero_fields(v, rng, p)
+        elif rng.random() < p:
+            if tp in SIZES or tp is T.bu16:
+                setattr(inst, f.name, tp(0))
+            elif isinstance(tp, type) and issubclass(tp, enum.IntEnum):
+                z = zero_member(tp)
+                if z is not None:
+                    setattr(inst, f.name, z)
+
+
+def model_item(rng, st):
+    x = None
+    for _ in range(20):
+        x = rinst(rng, st)
+        if x is not None:
+            break
+    if x is None:
+        return None
+    r = rng.random()
+    if r < 0.3:
+        zero_tail(x)
+    elif r < 0.5:
+        zero_fields(x, rng, 0.6)
+    return x
+
+
+def model_value(rng, st, array):
+    if not array:
+        return model_item(rng, st)
+    items = [x for x in (model_item(rng, st) for _ in range(rng.choice([0, 1, 2, 2, 3, 3, 4]))) if x is not None]
+    if items and rng.random() < 0.1:
+        # an item with no field set encodes to nothing; in leading or middle position the separators still delimit it
+        try:
+            items.insert(rng.randrange(len(items)), st())
+        except TypeError:
+            pass
+    return items
+
+
+def small_domain(st, limit=8):
+    """all instances of a struct whose fields are all enums (every field set), when there are at most `limit` of them"""
+    import itertools
+    fl = fields_of(st)
+    if not fl or not all(isinstance(tp, type) and issubclass(tp, enum.IntEnum) for _, tp in fl):
+        return None
+    n = 1
+    for _, tp in fl:
+        n *= len(list(tp))
+    if n == 0 or n > limit:
+        return None
+    return [dict(zip([f.name for f, _ in fl], combo)) for combo in itertools.product(*[list(tp) for _, tp in fl])]
+
+
+def model_payload(v, array):
+    return b"\x00\x00".join(ref_struct(x) for x in v) if array else ref_struct(v)
+
+
+def model_show(v, st, array):
+    """rendering of a value held by / read from the model (never raises)"""
+    try:
+        if array:
+            if not isinstance(v, (list, tuple)):
+                return f"<{type(v).__name__} instead of a list>"
+            if not all(isinstance(x, st) for x in v):
+                return "<list with items of type " + ",".join(sorted({type(x).__name__ for x in v})) + ">"
+            return "[ " + " ".join(show_struct(x) for x in v) + " ]"
+        if not isinstance(v, st):
+            return f"<{type(v).__name__} instead of {st.__name__}>"
+        return show_struct(v)
+    except Exception as e:  # noqa: BLE001
+        return f"<unrenderable: {type(e).__name__}>"
+
+
+class RefReadError(Exception):
+    pass
+
+
+def ref_tlvs(data):
+    out = []
+    i = 0
+    while i < len(data):
+        if i + 2 > len(data) or i + 2 + data[i + 1] > len(data):
+            raise RefReadError("truncated")
+        out.append((i, data[i], data[i + 1], data[i + 2:i + 2 + data[i + 1]]))
+        i += 2 + data[i + 1]
+    return out
+
+
+def ref_items(data):
+    """split a canonical list on its separator items (walking the TLV headers)"""
+    items, start = [], 0
+    for off, t, n, _ in ref_tlvs(data):
+        if t == 0 and n == 0:
+            items.append(data[start:off])
+            start = off + 2
+    items.append(data[start:])
+    return items
+
+
+def ref_read(st, data):
+    """independent reader of what ref_struct writes (rebuilds the expected object of a recorded case; the harness's own codec pair)"""
+    by_type = {}
+    for f, tp in fields_of(st):
+        t = int(f.metadata["tlv_type"])
+        if t == 0 or t in by_type:
+            raise RefReadError("schema outside the reference reader")
+        by_type[t] = (f, tp)
+    merged = []
+    for _, t, n, chunk in ref_tlvs(data):
+        if merged and merged[-1][0] == t:
+            merged[-1][1] += chunk
+        else:
+            merged.append([t, bytes(chunk)])
+    kw = {}
+    for t, b in merged:
+        if t not in by_type:
+            raise RefReadError("unknown type")
+        f, tp = by_type[t]
+        if typing.get_origin(tp) is abc.Sequence:
+            inner = tp.__args__[0]
+            if inner is T.u16:
+                v = [T.u16(x[0]) for x in struct.iter_unpack("<H", b)]
+            else:
+                v = [ref_read(inner, it) for it in ref_items(b)]
+        elif tp in SIZES:
+            v = tp(int.from_bytes(b, "little"))
+        elif tp is T.bu16:
+            v = T.bu16(int.from_bytes(b, "big"))
+        elif isinstance(tp, type) and issubclass(tp, enum.IntEnum):
+            v = tp(b[0])
+        elif tp is str:
+            v = b.decode()
+        elif tp is bytes:
+            v = bytes(b)
+        elif isinstance(tp, type) and issubclass(tp, T.TLVStruct):
+            v = ref_read(tp, b)
+        else:
+            raise RefReadError("field type")
+        kw[f.name] = v
+    return st(**kw)
+
+
+def ref_read_value(st, array, payload, want):
+    """expected object for a payload, or None when the reference reader does not reproduce the recorded rendering"""
+    try:
+        obj = [ref_read(st, it) for it in ref_items(payload)] if (array and payload) else ([] if array else ref_read(st, payload))
+        return obj if model_show(obj, st, array) == want else None
+    except Exception:  # noqa: BLE001
+        return None
+
+
+def b64(b):
+    import base64
+    return base64.b64encode(bytes(b)).decode()
+
+
+def unb64(s):
+    import base64
+    return base64.b64decode(s, validate=True)
+
+
+MODEL_STORES = ["ctor", "set_value", "setter", "changes", "from_list", "reload"]
+IP_STORES = ["listed", "event", "get", "put"]
+
+
+class ModelRig:
+    """one accessory holding every struct-valued characteristic type in one service; values arrive the ways a transport, an
+    application or a cache restore delivers them.  `cur` (base64 per type) is the harness's own record of what was stored."""
+    AID = 7
+    SIID = 30
+
+    def __init__(self, chars, build=True):
+        from aiohomekit.model.services import ServicesTypes
+        self.stype = ServicesTypes.CAMERA_RTP_STREAM_MANAGEMENT
+        self.chars = chars
+        self.iids = {c[0]: 31 + k for k, c in enumerate(chars)}
+        self.cur = {}
+        self.accs = None
+        if build:
+            self._programmatic()
+
+    def _programmatic(self):
+        from aiohomekit.model import Accessories, Accessory
+        a = Accessory(self.AID)
+        s = a.add_service(self.stype, iid=self.SIID)
+        for uuid, _, _, _ in self.chars:
+            kw = {"iid": self.iids[uuid]}
+            if uuid in self.cur:
+                kw["value"] = self.cur[uuid]
+            s.add_char(uuid, **kw)
+        self.accs = Accessories()
+        self.accs.add_accessory(a)
+
+    def entity_map(self):
+        rows = []
+        for uuid, _, _, _ in self.chars:
+            row = {"iid": self.iids[uuid], "type": uuid, "perms": ["pr", "pw", "ev"], "format": "tlv8"}
+            if uuid in self.cur:
+                row["value"] = self.cur[uuid]
+            rows.append(row)
+        return [{"aid": self.AID, "services": [{"iid": self.SIID, "type": self.stype, "characteristics": rows}]}]
+
+    def char(self, uuid):
+        return self.accs.aid(self.AID).characteristics.iid(self.iids[uuid])
+
+    def store(self, how, uuid, value):
+        from aiohomekit import hkjson
+        from aiohomekit.model import Accessories
+        if how == "ctor":
+            self.cur[uuid] = value
+            self._programmatic()
+        elif how == "from_list":
+            self.cur[uuid] = value
+            self.accs = Accessories.from_list(hkjson.loads(hkjson.dumps(self.entity_map())))
+        else:
+            self.cur[uuid] = value
+            if how == "set_value":
+                self.char(uuid).set_value(value)
+            elif how == "setter":
+                self.char(uuid).value = value
+            elif how == "changes":
+                self.accs.process_changes({(self.AID, self.iids[uuid]): {"value": value}})
+            elif how == "reload":
+                # persisted entity map of a running model, restored (what the characteristic cache does across restarts)
+                self.char(uuid).set_value(value)
+                self.accs = Accessories.from_list(hkjson.loads(hkjson.dumps(self.accs.serialize())))
+            else:
+                raise ValueError(how)
+
+
+def model_accessors(accs, aid, siid, iid, uuid, stype):
+    def acc():
+        return accs.aid(aid)
+    return [
+        ("Characteristic.value", lambda: acc().characteristics.iid(iid).value),
+        ("Characteristic.get_value()", lambda: acc().services.iid(siid).get_char_by_iid(iid).get_value()),
+        ("Service.value(type)", lambda: acc().services.iid(siid).value(uuid)),
+        ("Service[type].value", lambda: acc().services.iid(siid)[uuid].value),
+        ("Service.characteristics.first(type).value", lambda: acc().services.iid(siid).characteristics.first(char_types=[uuid]).value),
+        ("Services.first(service_type).value(type)", lambda: acc().services.first(service_type=stype).value(uuid)),
+        ("iteration over accessories/services/characteristics", lambda: next(c for a in accs for s in a.services for c in s.characteristics if (a.aid, c.iid) == (aid, iid)).value),
+    ]
+
+
+def model_read_all(accs, aid, siid, iid, uuid, stype, name, st, array, want, want_obj, how, rng, full=True):
+    """read one characteristic back through the model's accessors; problems as (signature, text)"""
+    out = []
+    via = f"stored via {how}"
+    accessors = model_accessors(accs, aid, siid, iid, uuid, stype)
+    for label, fn in (accessors if full else accessors[:1] + accessors[2:3]):
+        try:
+            got = fn()
+        except Exception as e:  # noqa: BLE001
+            out.append((f"model/{name}/raised-{type(e).__name__}", f"{name} ({via}): {label} raised {type(e).__name__}({str(e)[:80]}) on a conformant accessory's value; encoded message {want[:160]}"))
+            continue
+        r = model_show(got, st, array)
+        if r != want:
+            out.append((f"model/{name}/differs", f"{name} ({via}): {label} returns {r[:160]} instead of the encoded message {want[:160]}"))
+    if not full:
+        return out
+    # reading is a function of the stored bytes: modifying what one read returned must not change the next read
+    try:
+        first = accs.aid(aid).characteristics.iid(iid).value
+        for x in (first if isinstance(first, list) else [first]):
+            scramble(x, rng)
+        if isinstance(first, list):
+            first.append(first[0] if first else None)
+        r = model_show(accs.aid(aid).characteristics.iid(iid).value, st, array)
+        if r != want and not any(s.endswith("/differs") for s, _ in out):
+            out.append((f"model/{name}/read-not-pure", f"{name} ({via}): after the object returned by one read was modified, the next read returns {r[:160]} instead of {want[:160]}"))
+    except Exception:  # noqa: BLE001
+        pass  # a raising accessor is already reported above
+    # selecting services by the value of a structured characteristic compares the decoded message with the caller's
+    if want_obj is not None:
+        try:
+            svc = accs.aid(aid).services.first(characteristics={uuid: want_obj})
+            hits = list(accs.aid(aid).services.filter(service_type=stype, characteristics={uuid: want_obj}))
+            if svc is None or svc.iid != siid or [s.iid for s in hits] != [siid]:
+                if not out:
+                    out.append((f"model/{name}/not-equal", f"{name} ({via}): Services.first/filter(characteristics={{type: message}}) does not find the service holding the encoding of that very message {want[:160]} (decoded value != encoded value)"))
+        except Exception as e:  # noqa: BLE001
+            if not out:
+                out.append((f"model/{name}/raised-{type(e).__name__}", f"{name} ({via}): Services.first/filter(characteristics=...) raised {type(e).__name__}({str(e)[:80]}); encoded message {want[:160]}"))
+    return out
+
+
+def model_write_check(svc, aid, iid, uuid, name, value, payload, want):
+    """the model's write path (Service.build_update -> put_characteristics payload) hands the encoding on unchanged"""
+    try:
+        upd = svc.build_update({uuid: value})
+    except Exception as e:  # noqa: BLE001
+        return [(f"model/{name}/write-refused", f"{name}: Service.build_update refuses the canonical encoding of {want[:160]}: {type(e).__name__}({str(e)[:80]})")], None
+    try:
+        ok = len(upd) == 1 and tuple(upd[0][:2]) == (aid, iid) and unb64(upd[0][2]) == payload
+    except Exception:  # noqa: BLE001
+        ok = False
+    if not ok:
+        return [(f"model/{name}/write-altered", f"{name}: Service.build_update turns the encoding of {want[:160]} into {str(upd)[:160]}")], None
+    return [], upd
+
+
+def run_model_history(chars, steps, seed):
+    """steps: [uuid, how, payload hex, want rendering]; every step stores one value and reads every stored value back"""
+    import random
+    rng = random.Random(seed)
+    by = {c[0]: c for c in chars}
+    try:
+        rig = ModelRig(chars)
+    except Exception as e:  # noqa: BLE001
+        return [(f"model/setup/{type(e).__name__}", f"building an accessory with the structured characteristic types raised {type(e).__name__}({str(e)[:80]})")]
+    wants = {}
+    problems = []
+    for uuid, how, ph, want in steps:
+        if uuid not in by or how not in MODEL_STORES:
+            continue
+        _, name, st, array = by[uuid]
+        payload = unhex(ph)
+        try:
+            rig.store(how, uuid, b64(payload))
+        except Exception as e:  # noqa: BLE001
+            problems.append((f"model/{name}/store-raised-{type(e).__name__}", f"{name}: storing a conformant accessory's value via {how} raised {type(e).__name__}({str(e)[:80]}); encoded message {want[:160]}"))
+            break
+        wants[uuid] = (want, ref_read_value(st, array, payload, want), how)
+        for u2, (w2, o2, h2) in wants.items():
+            _, n2, st2, arr2 = by[u2]
+            problems += model_read_all(rig.accs, rig.AID, rig.SIID, rig.iids[u2], u2, rig.stype, n2, st2, arr2, w2, o2, h2, rng, full=(u2 == uuid))
+        try:
+            svc = rig.accs.aid(rig.AID).services.iid(rig.SIID)
+        except Exception:  # noqa: BLE001
+            svc = None
+        if svc is not None:
+            problems += model_write_check(svc, rig.AID, rig.iids[uuid], uuid, name, b64(payload), payload, want)[0]
+        if problems:
+            break
+    return problems
+
+
+def unhex(s):
+    return b"" if s in ("-", "") else bytes.fromhex(s)
+
+
+def lib_encode(obj, array):
+    return b"\x00\x00".join(x.encode() for x in obj) if array else obj.encode()
+
+
+async def _ip_history(loop, chars, steps, seed):
+    """the same histories end to end: unpatched IpPairing (pair-verify, encrypted frames, JSON) against the scaffold accessory"""
+    import asyncio
+    import random
+    from unittest.mock import MagicMock
+
+    from harness import simnet
+    from harness.acc import Accessory as Scaffold, http
+    from harness.rcsim import settle
+
+    from aiohomekit.characteristic_cache import CharacteristicCacheMemory
+    from aiohomekit.controller.ip.pairing import IpPairing
+
+    rnd = random.Random(seed)
+    by = {c[0]: c for c in chars}
+    rig = ModelRig(chars, build=False)  # only its entity map / ids are used: the accessory's database
+    net = simnet.Net(loop)
+    acc = Scaffold(loop, net, lambda n: bytes(rnd.randrange(256) for _ in range(n)))
+    puts = []
+    iid_to_uuid = {i: u for u, i in rig.iids.items()}
+
+    def responder(s, method, target, body):
+        if target == "/characteristics" and method == "PUT":
+            d = json.loads(body)
+            puts.append(d)
+            for c in d.get("characteristics", []):
+                if "value" in c and c.get("iid") in iid_to_uuid:
+                    rig.cur[iid_to_uuid[c["iid"]]] = c["value"]
+            return b"HTTP/1.1 204 No Content\r\n\r\n"
+        if target.startswith("/characteristics") and method == "GET":
+            ids = [x.split(".") for x in target.split("id=")[1].split("&")[0].split(",")]
+            rows = [{"aid": int(a), "iid": int(i), "value": rig.cur.get(iid_to_uuid.get(int(i)), "")} for a, i in ids]
+            return http(json.dumps({"characteristics": rows}).encode(), b"application/hap+json")
+        if target.startswith("/accessories"):
+            return http(json.dumps({"accessories": rig.entity_map()}).encode(), b"application/hap+json")
+        return http(b"{}", b"application/hap+json")
+    acc.responder = responder
+    ctrl = MagicMock()
+    ctrl._char_cache = CharacteristicCacheMemory()
+    problems = []
+    wants = {}
+    with net.patched():
+        p = IpPairing(ctrl, acc.pairing_data(["10.0.0.1"]))
+        events = []
+
+        def listener(ev):
+            # what an application does with every event / write echo: apply it to the pairing's model
+            events.append(ev)
+            if p.accessories:
+                p.accessories.process_changes(ev)
+        p.dispatcher_connect(listener)
+        try:
+            await asyncio.wait_for(p.list_accessories_and_characteristics(), 120)
+        except Exception as e:  # noqa: BLE001
+            return [(f"ip/setup/{type(e).__name__}", f"listing an accessory database with structured characteristics raised {type(e).__name__}({str(e)[:80]})")]
+        for uuid, how, ph, want in steps:
+            if uuid not in by or how not in IP_STORES:
+                continue
+            _, name, st, array = by[uuid]
+            payload = unhex(ph)
+            iid = rig.iids[uuid]
+            key = (rig.AID, iid)
+            obj = ref_read_value(st, array, payload, want)
+            try:
+                if how == "listed":
+                    rig.cur[uuid] = b64(payload)
+                    await asyncio.wait_for(p.list_accessories_and_characteristics(), 120)
+                elif how == "event":
+                    rig.cur[uuid] = b64(payload)
+                    n0 = len(events)
+                    acc.event(net.open[-1], [{"aid": rig.AID, "iid": iid, "value": b64(payload)}])
+                    await settle(loop)
+                    got = [e[key].get("value") for e in events[n0:] if key in e]
+                    if len(got) != 1 or unb64(got[0]) != payload:
+                        problems.append((f"ip/{name}/event-value", f"{name}: an event carrying the encoding of {want[:160]} reaches the listener as {str(got)[:160]}"))
+                elif how == "get":
+                    rig.cur[uuid] = b64(payload)
+                    res = await asyncio.wait_for(p.get_characteristics([key]), 120)
+                    if key not in res or "value" not in res[key] or unb64(res[key]["value"]) != payload:
+                        problems.append((f"ip/{name}/get-value", f"{name}: get_characteristics returns {str(res)[:160]} for a characteristic holding the encoding of {want[:160]}"))
+                    else:
+                        p.accessories.process_changes(res)
+                elif how == "put":
+                    if obj is None:
+                        continue
+                    try:
+                        enc = lib_encode(obj, array)
+                    except Exception as e:  # noqa: BLE001
+                        problems.append((f"ip/{name}/encode-raised-{type(e).__name__}", f"{name}: encoding {want[:160]} for a write raised {type(e).__name__}"))
+                        break
+                    svc = p.accessories.aid(rig.AID).services.iid(rig.SIID)
+                    pr, upd = model_write_check(svc, rig.AID, iid, uuid, name, b64(enc), payload, want)
+                    if pr:
+                        problems += [(s.replace("model/", "ip/", 1), t) for s, t in pr]
+                        break
+                    n0 = len(puts)
+                    res = await asyncio.wait_for(p.put_characteristics(upd), 120)
+                    rows = [c for d in puts[n0:] for c in d.get("characteristics", [])]
+                    try:
+                        ok = len(rows) == 1 and (rows[0].get("aid"), rows[0].get("iid")) == key and unb64(rows[0].get("value")) == payload
+                    except Exception:  # noqa: BLE001
+                        ok = False
+                    if not ok or res:
+                        problems.append((f"ip/{name}/write-altered", f"{name}: writing {want[:160]} (put_characteristics of build_update) sends {str(rows)[:200]} / returns {str(res)[:80]} instead of the canonical encoding {payload.hex()[:80]}"))
+            except asyncio.TimeoutError:
+                problems.append((f"ip/{name}/no-answer", f"{name}: {how} of the encoding of {want[:160]} did not complete"))
+                break
+            except Exception as e:  # noqa: BLE001
+                problems.append((f"ip/{name}/{how}-raised-{type(e).__name__}", f"{name}: {how} of a conformant accessory's value raised {type(e).__name__}({str(e)[:80]}); encoded message {want[:160]}"))
+                break
+            if problems:
+                break
+            wants[uuid] = (want, obj, how)
+            accs = p.accessories
+            for u2, (w2, o2, h2) in wants.items():
+                _, n2, st2, arr2 = by[u2]
+                pr = model_read_all(accs, rig.AID, rig.SIID, rig.iids[u2], u2, rig.stype, n2, st2, arr2, w2, o2, h2, rnd, full=(u2 == uuid))
+                problems += [(s.replace("model/", "ip/", 1), t) for s, t in pr]
+            if problems:
+                break
+        try:
+            await asyncio.wait_for(p.close(), 120)
+        except Exception:  # noqa: BLE001
+            pass
+    return problems
+
+
+def run_ip_history(loop, chars, steps, seed):
+    import asyncio
+    try:
+        return loop.run_until_complete(_ip_history(loop, chars, steps, seed))
+    finally:
+        pend = [t for t in asyncio.all_tasks(loop) if not t.done()]
+        for t in pend:
+            t.cancel()
+        if pend:
+            loop.run_until_complete(asyncio.gather(*pend, return_exceptions=True))
+
+
+def model_histories(ctx, chars):
+    """(kind, steps, objects) - steps as recorded in the case; objects only for the distribution counters"""
+    rng = ctx.rng
+    out = []
+    # exhaustive part: structs with a handful of values - every value, and for arrays every list of 0..3 of them (every
+    # value in every position), each stored through every path in turn
+    k = 0
+    for uuid, name, st, array in chars:
+        dom = small_domain(st)
+        if dom is None:
+            continue
+        import itertools
+        combos = [c for n in range(0, 4) for c in itertools.product(dom, repeat=n)] if array else [(d,) for d in dom]
+        if len(combos) > 700:
+            combos = rng.sample(combos, 700)
+        for combo in combos:
+            v = [st(**kw) for kw in combo] if array else st(**combo[0])
+            for how in (MODEL_STORES if len(combos) * len(MODEL_STORES) <= 1500 else [MODEL_STORES[k % len(MODEL_STORES)]]):
+                out.append(("exhaustive", [[uuid, how, hx(model_payload(v, array)), model_show(v, st, array)]], [(name, array, v)]))
+            k += 1
+    # random histories of 1..4 stores over all the types
+    per = ctx.budget(120, 3000)
+    for uuid, name, st, array in chars:
+        for _ in range(per):
+            steps, objs = [], []
+            for j in range(rng.choice([1, 1, 2, 3, 4])):
+                u, n2, st2, arr2 = (uuid, name, st, array) if (j == 0 or rng.random() < 0.6) else rng.choice(chars)
+                v = model_value(rng, st2, arr2)
+                if v is None:
+                    continue
+                steps.append([u, rng.choice(MODEL_STORES), hx(model_payload(v, arr2)), model_show(v, st2, arr2)])
+                objs.append((n2, arr2, v))
+            if steps:
+                out.append(("random", steps, objs))
+    return out
+
+
+def ip_histories(ctx, chars):
+    rng = ctx.rng
+    out = []
+    for uuid, name, st, array in chars:
+        for _ in range(ctx.budget(12, 300)):
+            steps, objs = [], []
+            for j in range(rng.choice([1, 2, 3, 4])):
+                u, n2, st2, arr2 = (uuid, name, st, array) if (j == 0 or rng.random() < 0.6) else rng.choice(chars)
+                v = model_value(rng, st2, arr2)
+                if v is None:
+                    continue
+                steps.append([u, rng.choice(IP_STORES), hx(model_payload(v, arr2)), model_show(v, st2, arr2)])
+                objs.append((n2, arr2, v))
+            if steps:
+                out.append(("random", steps, objs))
+    return out
+
+
+def count_history(ctx, stream, kind, steps, objs):
+    ctx.evaluations += len(steps)
+    ctx.dist[f"{stream}:{kind}"] += 1
+    for (u, how, ph, want), (name, array, v) in zip(steps, objs):
+        payload = unhex(ph)
+        n = len(v) if array else -1
+        tail0 = bool(payload) and payload[-1] == 0
+        inner00 = b"\x00\x00" in (payload if not array else b"".join(ref_struct(x) for x in v))
+        size = "0" if not payload else ("<=255" if len(payload) <= 255 else ">255")
+        ctx.dist[f"{stream}:store:{how}"] += 1
+        ctx.dist[f"{stream}:char:{name}"] += 1
+        if array:
+            ctx.dist[f"{stream}:items:{n}"] += 1
+            if any(ref_struct(x).endswith(b"\x00") for x in v[:-1]):
+                ctx.dist[f"{stream}:item-ending-00-before-separator"] += 1
+        if tail0:
+            ctx.dist[f"{stream}:payload-ending-00"] += 1
+        if inner00:
+            ctx.dist[f"{stream}:00-00-inside-a-value"] += 1
+        ctx.dist[f"{stream}:size:{size}"] += 1
+        ctx.nontrivial.add((stream, name, how, n, tail0, inner00, size))
+
+
+def model_streams(ctx):
+    chars = struct_chars()
+    ctx.notes.append(f"{len(chars)} struct-valued characteristic types found by reflection: " + ", ".join(n + ("[]" if a else "") for _, n, _, a in chars))
+    if not chars:
+        return
+    reported = Counter()
+
+    def report(stream, problems, steps, seed, rerun):
+        seen = set()
+        for sig, text in problems:
+            if sig in seen or reported[sig] >= 3:
+                continue
+            seen.add(sig)
+            reported[sig] += 1
+            small = steps
+            if len(steps) > 1:
+                # shortest sub-history that still shows the same failure
+                small = shrink_list(steps, lambda cand, sig=sig: any(s2 == sig for s2, _ in rerun(cand)), budget=24)
+                text = next((t for s2, t in rerun(small) if s2 == sig), None) or text
+                if text is None or not small:
+                    small = steps
+            ctx.violation(sig, text, {"stream": stream, "steps": small, "seed": seed})
+    try:
+        # observation only: the BLE value converter's text form of a tlv8 value, read through the model accessor
+        from aiohomekit.controller.ble.values import from_bytes
+        rig = ModelRig(chars)
+        uuid, name, st, array = chars[0]
+        v = model_item(ctx.rng, st)
+        rig.store("set_value", uuid, from_bytes(rig.char(uuid), ref_struct(v)))
+        try:
+            ok = model_show(rig.char(uuid).value, st, array) == model_show([v] if array else v, st, array)
+            ctx.notes.append(f"observed (not asserted): a tlv8 value in the text form of the BLE value converter reads back {'equal' if ok else 'different'} through Characteristic.value")
+        except Exception as e:  # noqa: BLE001
+            ctx.notes.append(f"observed (not asserted): a tlv8 value in the text form of the BLE value converter (hex) makes Characteristic.value raise {type(e).__name__}")
+    except Exception:  # noqa: BLE001
+        pass
+    sampled = False
+    for i, (kind, steps, objs) in enumerate(model_histories(ctx, chars)):
+        seed = ctx.seed * 7919 + i
+        count_history(ctx, "model", kind, steps, objs)
+        report("model", run_model_history(chars, steps, seed), steps, seed, lambda cand, seed=seed: run_model_history(chars, cand, seed))
+        if kind == "random" and not sampled:
+            sampled = True
+            ctx.sample({"stream": "model", "steps": [[u, h, (p if len(p) < 200 else p[:200] + "..."), (w if len(w) < 200 else w[:200] + "...")] for u, h, p, w in steps]})
+    import asyncio
+
+    from harness import simnet
+    loop = simnet.VLoop()
+    asyncio.set_event_loop(loop)
+    try:
+        for i, (kind, steps, objs) in enumerate(ip_histories(ctx, chars)):
+            seed = ctx.seed * 104729 + i
+            count_history(ctx, "ip", kind, steps, objs)
+            report("ip", run_ip_history(loop, chars, steps, seed), steps, seed, lambda cand, seed=seed: run_ip_history(loop, chars, cand, seed))
+    finally:
+        asyncio.set_event_loop(None)
+        loop.close()
+
+
 def run(ctx: Ctx, driver: Driver):
     rng = ctx.rng
     schemas = load_schemas()
@@ -395,9 +1080,27 @@ def run(ctx: Ctx, driver: Driver):
                 ctx.evaluations += 1
     ctx.sample({k: (v if len(str(v)) < 400 else str(v)[:400] + "...") for k, v in dcases[-1].items()})
     compare_with_model(ctx, "dec", dcases, douts, dlines, driver, canon=lambda s: ("err" if s.startswith("err") else s))
+    # ---- streams model / ip: the same messages as values of struct-valued characteristics, through the accessory model
+    model_streams(ctx)
 
 
 def replay(ctx, driver, c):
+    if c.get("stream") in ("model", "ip"):
+        chars = struct_chars()
+        if c["stream"] == "model":
+            pr = run_model_history(chars, c["steps"], c.get("seed", 0))
+        else:
+            import asyncio
+
+            from harness import simnet
+            loop = simnet.VLoop()
+            asyncio.set_event_loop(loop)
+            try:
+                pr = run_ip_history(loop, chars, c["steps"], c.get("seed", 0))
+            finally:
+                asyncio.set_event_loop(None)
+                loop.close()
+        return "; ".join(t for _, t in pr[:3])[:600] or None
     cls = cls_of(c["cls"])
     nm = len(ctx.mismatches)
     if c["stream"] in ("peer", "dec"):
